@@ -71,6 +71,9 @@ pub enum PoAct {
     Transparent(u32),
     Poll,
     Tick,
+    /// a long pause (2^20 ms): reached in one step, so the representative of the saturated-age
+    /// states is a really old one (thresholds far beyond CAP are exercised)
+    BigTick,
     Reset,
     ResetProbe,
 }
@@ -93,6 +96,10 @@ pub struct PollSys {
     pub noncontrib: Vec<(u8, u8, u8)>,
     pub report: PReport,
     pub reacted: Vec<AtomicBool>,
+    /// second-step probing (see `do_feed`)
+    pub deep_probes: bool,
+    pub followup_values: Vec<u8>,
+    pub deep_evals: std::sync::atomic::AtomicU64,
 }
 
 pub fn cap_for(timeout: u64, mult: u64) -> u64 {
@@ -144,6 +151,9 @@ impl PollSys {
             noncontrib: Vec::new(),
             report,
             reacted: (0..128).map(|_| AtomicBool::new(false)).collect(),
+            deep_probes: false,
+            followup_values: values.to_vec(),
+            deep_evals: std::sync::atomic::AtomicU64::new(0),
         }
     }
 
@@ -216,7 +226,8 @@ impl PollSys {
         }
     }
 
-    fn do_feed(&self, s: &PoState, st: u8, d1: u8, d2: u8, expand: bool) -> Step<PoState> {
+    /// One real feed judged by the observer; always returns the successor.
+    fn feed_core(&self, s: &PoState, st: u8, d1: u8, d2: u8) -> Step<PoState> {
         let mut v = Vec::new();
         set_now_millis(s.now);
         let mut sc = s.sc;
@@ -333,10 +344,51 @@ impl PollSys {
             _ => h64(&out),
         };
         Step {
-            next: if expand { Some(PoState { sc, now: s.now, ob: nob }) } else { None },
+            next: Some(PoState { sc, now: s.now, ob: nob }),
             obs,
             violations: v,
         }
+    }
+
+    /// Feed as an action. Probes (`expand == false`) are judged but not expanded; with
+    /// `deep_probes` every probe is followed by ONE more judged step: each contributing controller
+    /// over the follow-up byte domain, and a poll now and after the timeout. This covers behaviour
+    /// that depends on a stored byte outside the expansion domain and only shows one step later.
+    fn do_feed(&self, s: &PoState, st: u8, d1: u8, d2: u8, expand: bool) -> Step<PoState> {
+        let mut r = self.feed_core(s, st, d1, d2);
+        if !expand {
+            if self.deep_probes && r.violations.is_empty() && !matches!(d1, 96 | 97) {
+                if let Some(mid) = r.next.as_ref() {
+                    let mut extra = Vec::new();
+                    let mut n = 0u64;
+                    for &c in &[98u8, 99, 100, 101, 38, 6, 96, 97] {
+                        for &v in &self.followup_values {
+                            let r2 = self.feed_core(mid, 0xB0 | self.ch, c, v);
+                            n += 1;
+                            for mut x in r2.violations {
+                                x.signature = format!("{}/second-step", x.signature);
+                                x.detail = format!("after the one-step probe CC#{} ={}, then CC#{} ={}: {}", d1, d2, c, v, x.detail);
+                                extra.push(x);
+                            }
+                        }
+                    }
+                    for dt in [0u64, self.timeout.min(1 << 20) + 1] {
+                        let later = PoState { sc: mid.sc, now: mid.now + dt, ob: mid.ob };
+                        let r2 = self.do_poll(&later);
+                        n += 1;
+                        for mut x in r2.violations {
+                            x.signature = format!("{}/second-step", x.signature);
+                            x.detail = format!("after the one-step probe CC#{} ={}, then {} ms, then poll: {}", d1, d2, dt, x.detail);
+                            extra.push(x);
+                        }
+                    }
+                    self.deep_evals.fetch_add(n, Ordering::Relaxed);
+                    r.violations.extend(extra);
+                }
+            }
+            r.next = None;
+        }
+        r
     }
 
     fn do_poll(&self, s: &PoState) -> Step<PoState> {
@@ -351,6 +403,13 @@ impl PollSys {
         if self.report.c14 {
             if let Some(t) = &out {
                 self.judge_content(ob, None, t, "poll", &mut v);
+            }
+            // P6, poll clause: the first poll after the timeout reports a pending controller-6 byte
+            if let (Some((b, _)), Some(age)) = (ob.owed, age_owed) {
+                let reported = out.map_or(false, |t| is_7bit_entry(&t) && t[2] == b as u32);
+                if age >= self.timeout && !reported {
+                    v.push(self.v14("P6-pending-msb-lost", "poll", || format!("controller-6 byte {} was pending for {} ms (timeout {}); the first poll after the timeout returned {:?} without reporting it", b, age, self.tname(), out.map(|t| pnm_str(&t)))));
+                }
             }
         }
         if self.report.c13 {
@@ -437,6 +496,7 @@ impl System for PollSys {
         }
         out.push(PoAct::Poll);
         out.push(PoAct::Tick);
+        out.push(PoAct::BigTick);
         out.push(PoAct::Reset);
         out.push(PoAct::ResetProbe);
         for &(c, v) in &self.probes {
@@ -459,10 +519,10 @@ impl System for PollSys {
         self.key_inner(s)
     }
     fn n_classes(&self) -> usize {
-        8
+        9
     }
     fn class_name(&self, i: usize) -> String {
-        ["feed-contributing-cc", "feed-cc-probe(concretisation)", "feed-other(expanded)", "feed-must-be-transparent", "poll", "tick-1ms", "reset", "reset-probe"][i].to_string()
+        ["feed-contributing-cc", "feed-cc-probe(concretisation)", "feed-other(expanded)", "feed-must-be-transparent", "poll", "tick-1ms", "reset", "reset-probe", "long-pause-2^20ms"][i].to_string()
     }
     fn class_of(&self, a: &PoAct) -> usize {
         match a {
@@ -474,6 +534,7 @@ impl System for PollSys {
             PoAct::Tick => 5,
             PoAct::Reset => 6,
             PoAct::ResetProbe => 7,
+            PoAct::BigTick => 8,
         }
     }
     fn render(&self, a: &PoAct) -> String {
@@ -490,6 +551,7 @@ impl System for PollSys {
             }
             PoAct::Poll => format!("poll:{}", self.ch),
             PoAct::Tick => "tick".to_string(),
+            PoAct::BigTick => "bigtick".to_string(),
             PoAct::Reset => "reset".to_string(),
             PoAct::ResetProbe => "resetprobe".to_string(),
         }
@@ -503,6 +565,7 @@ impl System for PollSys {
             PoAct::Other(_) | PoAct::Transparent(_) => format!("// feed {}", self.render(a)),
             PoAct::Poll => format!("println!(\"{{:?}}\", scanner.poll(helgoboss_midi::test_util::channel({})));", self.ch),
             PoAct::Tick => "clock += 1; helgoboss_midi::verif_hooks::set_now_millis(clock); // (std::thread::sleep(1ms) with the real clock)".to_string(),
+            PoAct::BigTick => "clock += 1 << 20; helgoboss_midi::verif_hooks::set_now_millis(clock);".to_string(),
             PoAct::Reset | PoAct::ResetProbe => "scanner.reset();".to_string(),
         }
     }
@@ -545,6 +608,11 @@ impl PollSys {
             PoAct::Poll => self.do_poll(s),
             PoAct::Tick => Step {
                 next: Some(PoState { sc: s.sc, now: s.now + 1, ob: s.ob }),
+                obs: 0,
+                violations: Vec::new(),
+            },
+            PoAct::BigTick => Step {
+                next: Some(PoState { sc: s.sc, now: s.now + (1 << 20), ob: s.ob }),
                 obs: 0,
                 violations: Vec::new(),
             },
@@ -607,9 +675,24 @@ fn run_observer(chk: &xs::Check, tier: xs::Tier, pid: &'static str, report: PRep
     let v8 = [0u8, 1, 2, 63, 64, 85, 126, 127];
     for &t in &TIMEOUTS {
         for &c in &channels {
-            let sys = PollSys::new(pid, c, t, 1, &v3, true, report);
+            let mut sys = PollSys::new(pid, c, t, 1, &v3, true, report);
+            // second-step probing: on the first channel in the quick tier (follow-ups over the
+            // expansion domain), on every channel in the thorough tier (first channel: follow-ups
+            // over all 128 values)
+            sys.deep_probes = c == channels[0] || tier.thorough();
+            if tier.thorough() && c == channels[0] {
+                sys.followup_values = (0..128).collect();
+            } else if !tier.thorough() {
+                // what matters is the byte STORED by the probe, not the follow-up's own value
+                sys.followup_values = vec![1];
+            }
             let out = xs::explore(&sys, &Limits::default());
             engine::record(chk, &sys, &out, None);
+            let de = sys.deep_evals.load(Ordering::Relaxed);
+            if de > 0 {
+                chk.add_eval(de);
+                chk.push("second_step_probe_evaluations", json!({"channel": c, "timeout": sys.tname(), "evaluations": de, "follow_up_values": sys.followup_values.len()}));
+            }
             if tier.thorough() && c == 0 {
                 // doubled age cap: same verdict required
                 let sys2 = PollSys::new(pid, c, t, 2, &v3, false, report);
